@@ -103,4 +103,33 @@ def fill (slots : List Slot) (blk : List Nat) : List Nat :=
     | (.pool w, _) => w
     | (_, b) => b
 
+/-! ### the whole exchange (executed by the driver's `cb.roundtrip`) -/
+
+/-- the short ids a sender announces for `blk` (wtxids) with the positions `pre` prefilled: one per remaining
+    position, in order (btclib has no builder for a `CmpctBlock`; this is the caller's side, as the harness does it) -/
+def compactOf (sid : Nat → Nat) (blk pre : List Nat) : List Nat :=
+  ((List.range blk.length).filter fun i => !pre.contains i).map fun j => sid (blk.getD j 0)
+
+/-- `PartialBlock.missing_indexes` -/
+def missingIndexes : List (Option Nat) → Nat → List Nat
+  | [], _ => []
+  | none :: r, i => i :: missingIndexes r (i + 1)
+  | some _ :: r, i => missingIndexes r (i + 1)
+
+inductive RtErr | reconstruct (e : Err) | fill
+  deriving DecidableEq, Repr
+
+/-- the whole BIP152 exchange for a block `blk` announced with `pre` prefilled under the short-id function `sid`,
+    received by a node holding `pool`: `reconstruct`, then `getblocktxn` for `missing_indexes`, answered with the
+    block's transactions at those positions, then `PartialBlock.fill`.  Returns (missing indexes, filled block). -/
+def roundTrip (sid : Nat → Nat) (blk pre pool : List Nat) : Except RtErr (List Nat × List Nat) :=
+  match reconstruct pre (compactOf sid blk pre) (pool.map fun w => (sid w, w)) with
+  | .error e => .error (.reconstruct e)
+  | .ok slots =>
+    let part := partialView slots blk
+    let missing := missingIndexes part 0
+    match fillP part (missing.map fun j => blk.getD j 0) with
+    | .error _ => .error .fill
+    | .ok b => .ok (missing, b)
+
 end Btc.CompactBlocks
